@@ -175,12 +175,12 @@ def sqlite_full_join_quirk(case, rv):
         if s["verb"] != "union":
             continue
         for side in (s["in"], s["right"]):
-            seen_full = False
-            for p in lineage(case, side):
-                if p["verb"] == "join" and p.get("how") == "full":
-                    seen_full = True
-                if seen_full and p["verb"] == "filter":
-                    return True
+            lin_side = lineage(case, side)
+            # (the filter may also sit below the join: `SELECT .. FROM (q1 WHERE ..) FULL OUTER JOIN (q2 WHERE ..)` as a
+            # compound operand in a subquery returns an all-null row for two empty operands)
+            if any(p["verb"] == "join" and p.get("how") == "full" for p in lin_side) and any(
+                    p["verb"] == "filter" for p in lin_side):
+                return True
     return False
 
 
